@@ -243,7 +243,7 @@ impl Bitfield {
 
         let num_rows = 1 << (order - Self::ROW_BITS.ilog2() as usize);
 
-        for (i, rows) in self.data.chunks(num_rows).enumerate() {
+        'chunks: for (i, rows) in self.data.chunks(num_rows).enumerate() {
             // Check that these rows are free
             if rows.iter().all(|e| e.load() == 0) {
                 for (j, row) in rows.iter().enumerate() {
@@ -254,7 +254,8 @@ impl Bitfield {
                                 .compare_exchange(u64::MAX, 0)
                                 .expect("Failed undo search");
                         }
-                        break;
+                        // Lost the race for these rows, try the next ones
+                        continue 'chunks;
                     }
                 }
                 return Ok(RowId(i * num_rows));
